@@ -3,8 +3,8 @@ LEVEL = 'model_checking'
 EXPLANATION = ('replace(from,to,cs) (counting scan + copying scan, real code), split(ST::string / const char* / char, max, cs) and tokenize(delims) on subjects of arbitrary bytes (NUL included), arbitrary 64-bit max_splits, both case modes, '
                'against a left-to-right non-overlapping reference scan: pieces equal the bytes between the reference cuts, in order (so joining inverts splitting and there are at most max+1 pieces); replace length = size + k*(|to|-|from|) and content = reference; '
                'empty separator/pattern leaves the text whole; termination = unwinding assertions. std::vector<ST::string> is modelled as a bounded sequence whose elements are built by the real ST::string constructors.')
-BOUNDS = {'quick': 'split(ST::string)/split(char)/tokenize: subject 3 bytes, separator / delimiter set 0..2 bytes; split(const char*): 2 bytes; replace: (subject,pattern,replacement) lengths (3,1,1) (2,1,2) (2,1,0) (2,2,1) (3,0,1)',
-          'thorough': 'subject 3 and 4 bytes, pattern 1..2, replacement 0..3 (self-overlapping patterns such as "aa" in "aaa" need 3 bytes)'}
+BOUNDS = {'quick': 'split(ST::string)/split(char)/tokenize: subject 3 bytes, separator / delimiter set 0..2 bytes; split(const char*): 2 bytes; replace: (subject,pattern,replacement) lengths (3,1,1) (2,1,2) (2,1,0) (2,2,1) (3,0,1) (3,2,1); split(ST::string) with subject 4 / separator 3 per case mode (self-overlapping separators)',
+          'thorough': 'subject 3 and 4 bytes, pattern 1..2, replacement 0..3 (self-overlapping patterns such as "aa" in "aaa" need 3 bytes); replace (4,3,1) per case mode'}
 OUTSIDE = 'longer subjects (replace at 4 bytes: 150-280 s per combination); libstdc++ std::vector growth (modelled); separators longer than 2 bytes'
 def L(ns, nm): return [(r'vp_mem(cpy|move)_u8', ns * 2 + 2), (r'vpx_memcmp', nm + 1), (r'vpx_memchr', ns + 1), (r'vpx_strlen', 4), (r'vpx_str', ns + 2)]
 def queries():
